@@ -51,6 +51,9 @@ CHECKS = {
  "C01": ("model_checking", "E2", "breadth-first enumeration of the program-construction transition system; every reachable program is executed by the real loader + Model.Run and compared with a reference graph evaluator",
          "State = program prefix, transition = append one node instance (template x every wiring x output naming scheme). All programs of depth <= 2 over 16 templates (~186k programs incl. two nodes of the same operator type with different attributes, fan-out/fan-in, optional inputs absent by omission or by empty name, multi-output nodes with arbitrary / permuted / partly omitted output names, initializers that are also graph inputs) and depth-3 chains over a reduced alphabet are marshalled to bytes, loaded with NewModelFromBytes and Run with every intermediate value declared as graph output; each declared output must be present, non-nil and equal to the reference environment.",
          "Trusted: the reference node evaluator (refeval.go over /verif/mc/ref). Depth and tensor sorts are bounded (shapes (2,2),(2,1,2),(1,1,2)); every trace is an implementation trace, so traces_validated_against_impl = programs executed.", "DESIGN.md §3 C01"),
+ "C02": ("model_checking", "E3", "explicit enumeration of ALL call histories up to a depth on one real Model per subject, with deep state snapshots and a reference-model oracle after every call",
+         "For ~330 subjects (every registered operator as a single-node model under every caller-input / initializer role assignment, two producer->consumer compositions, the sample models) every sequence of depth <= 3 (thorough 4) over {Run(A), Run(B), Run(fresh A), failing Run (wrong rank), failing Run (missing input), Run with the previous state outputs fed back} is executed on a freshly loaded Model; after every call the outputs must equal the reference evaluation and be bit-identical to the first Run on the same values, and deep snapshots of both caller tensor sets, of every weight tensor (via the verif hook) and of the marshalled proto must equal load time.",
+         "Trusted: the reference model evaluator; hx.Snapshot (shape, strides, dtype, flags, all element bits). Hook: Model.VerifParameters / VerifModelProto (build tag verif).", "DESIGN.md §3 C02"),
 }
 NA_REASON = "check not built yet in this session (see DESIGN.md §7 order of construction); decidable by bounded exhaustive exploration, to be claimed once its explorer exists"
 def main():
